@@ -114,7 +114,7 @@ theorem Stable.deliverIn {P : Srv → Prop} (h : Stable P) (s : Srv) (to : Tok) 
   cases to with
   | none => exact hp
   | zero => exact hp
-  | badNode => exact hp
+  | badNode => exact h.cln _ _ hp
   | done =>
     simp only
     split
@@ -509,7 +509,7 @@ theorem transmitFoundIn_delivered (s : Srv) (to : Tok) (frm : Frm) (b : Body) :
   cases to with
   | none => simp [dcount]
   | zero => simp [dcount]
-  | badNode => simp [dcount]
+  | badNode => simp only [dcount]; exact clean_via _ s .K rfl rfl rfl rfl
   | done =>
     by_cases hd : s.doneMark = true
     · have hd2 : ({ s with armed := upd s.armed (treeOf .done) false } : Srv).doneMark = true := hd
@@ -1138,7 +1138,7 @@ theorem closed_transmit (s : Srv) (to : Tok) : Closed [] (transmitTr s to) := by
   cases to with
   | none => exact closed_nil _
   | zero => exact i0
-  | badNode => exact i0
+  | badNode => exact closed_append i0 (closed_inst_mux (closed_clean _ (by decide) _ _))
   | done =>
     simp only
     split
@@ -1283,6 +1283,7 @@ theorem c07_shape_Overlay_TransmitMsg :
    ["treeStorage.getAndRefresh", "verifPoint:tm.miss", "o.requestTree", "verifPoint:tm.found",
      "transmitMux.Lock", "defer:transmitMux.Unlock", "instancesLock.Lock", "To.ID", "To.ID",
      "o.cleanTreeStorage", "instancesLock.Unlock", "o.TreeNodeFromTree",
+     "instancesLock.Lock", "o.cleanTreeStorage", "instancesLock.Unlock",
      "o.newTreeNodeInstanceFromToken", "treeStorage.Set", "o.hasPendingMsg",
      "o.checkPendingMessages", "To.ID", "o.getConfig", "serviceManager.newProtocol",
      "instancesLock.Lock", "o.nodeDelete", "instancesLock.Unlock", "go{", "defer{", "tni.Token",
